@@ -27,6 +27,25 @@ theorem layPrim_eq (k : PrimK) (zie : Bool) (v : Val) :
     simp only [Except.map]
     split <;> simp [lenOpt]
 
+theorem layField_eq (lay : Lay) (enc : Enc) (h : ∀ ty zie v, lay ty zie v = (enc ty zie v).map lenOpt)
+    (f : Field) (v : Option Val) : layField lay f v = (encField enc f v).map lenOpt := by
+  unfold layField encField
+  by_cases ho : f.omitted = true
+  · simp only [ho, if_true]; rfl
+  · simp only [ho, Bool.false_eq_true, if_false]
+    by_cases ht : f.tl2bit.isSome = true
+    · simp only [ht, if_true]
+      cases v with
+      | none => rfl
+      | some x =>
+        by_cases hb : f.isBit = true
+        · simp only [hb, if_true]; rfl
+        · simp only [hb, Bool.false_eq_true, if_false]; exact h _ _ _
+    · simp only [ht, Bool.false_eq_true, if_false]
+      cases v with
+      | none => rfl
+      | some x => exact h _ _ _
+
 theorem layFields_eq (lay : Lay) (enc : Enc) (h : ∀ ty zie v, lay ty zie v = (enc ty zie v).map lenOpt) :
     ∀ (fs : List Field) (vs : List (Option Val)),
       layFieldsWith lay fs vs = (encFieldsWith enc fs vs).map (List.map lenOpt) := by
@@ -39,33 +58,10 @@ theorem layFields_eq (lay : Lay) (enc : Enc) (h : ∀ ty zie v, lay ty zie v = (
     | nil => rfl
     | cons v vs =>
       simp only [layFieldsWith, encFieldsWith]
-      rw [ih vs]
-      by_cases ho : f.omitted = true
-      · simp only [ho, if_true]
-        cases encFieldsWith enc fs vs <;> simp [Except.map, lenOpt]
-      · simp only [ho, Bool.false_eq_true, if_false]
-        by_cases ht : f.tl2bit.isSome = true
-        · simp only [ht, if_true]
-          cases v with
-          | none => cases encFieldsWith enc fs vs <;> simp [Except.map, lenOpt]
-          | some x =>
-            by_cases hb : f.isBit = true
-            · simp only [hb, if_true]
-              cases encFieldsWith enc fs vs <;> simp [Except.map, lenOpt]
-            · simp only [hb, Bool.false_eq_true, if_false]
-              rw [h]
-              cases enc f.ty false x with
-              | error e => rfl
-              | ok b => cases encFieldsWith enc fs vs <;> simp [Except.map]
-        · simp only [ht, Bool.false_eq_true, if_false]
-          cases v with
-          | none => rfl
-          | some x =>
-            simp only []
-            rw [h]
-            cases enc f.ty true x with
-            | error e => rfl
-            | ok b => cases encFieldsWith enc fs vs <;> simp [Except.map]
+      rw [ih vs, layField_eq lay enc h]
+      cases encField enc f v with
+      | error e => rfl
+      | ok b => cases encFieldsWith enc fs vs <;> rfl
 
 theorem optBytes_length (b : Option Bytes) : (optBytes b).length = (lenOpt b).getD 0 := by
   cases b <;> rfl
